@@ -168,6 +168,7 @@ type ActorConfig struct {
 	OnCall    func(a *Actor, from gen.PID, ref gen.Ref, req any) (any, error)
 	OnEvent   func(a *Actor, ev gen.MessageEvent) error
 	OnTerm    func(a *Actor, reason error)
+	OnLog     func(a *Actor, message gen.MessageLog)
 	Quiet     bool // do not record regular events (only instrument)
 }
 
@@ -322,6 +323,9 @@ func (a *Actor) HandleLog(message gen.MessageLog) (err error) {
 	st := a.g.enter(a.Cfg.Probe, a.Cfg.Label, "log")
 	defer func() { a.rec("log", gen.PID{}, message, err, st) }()
 	spin(a.Cfg.SpinNs)
+	if a.Cfg.OnLog != nil {
+		a.Cfg.OnLog(a, message)
+	}
 	return nil
 }
 
